@@ -108,6 +108,9 @@ def draw(rng, i):
             case["objective"] = [rng.choice(["maxmin", "minmax", "diff"]), None]
             case["cg_mask"] = rng.choice([11, 15, 3, rng.randrange(16)])
         return case
+    if i % 10 == 5:
+        # bin-completion on inputs where it really searches (best-fit-decreasing not optimal): its search state must not depend on the bins-manager in use
+        return C.draw_pack_case(rng, alg="bc", cls=rng.choice(["hardpack", "hardpack", "repeat", "repeat_large"]), pres=rng.choice(["list", "array", "dict_str"]), nmax=12)
     which = i % 19
     if which < 11:
         case = C.draw_partition_case(rng, alg=C.ALL_PART[which], pres=rng.choice(["list", "list", "array", "dict_str", "names_int"]))
